@@ -22,6 +22,7 @@ ENC = {
     "aro2": ["c", "c", "1", "2", "3", "(", ")", "[cH-]", "[c-]", "p", "[o+]", "[c]", "b", "n"],
     "caps": ["C", "=C", "#C", "N", "=N", "O", "=O", "[N+]", "[O-]", "(", ")", "[CH2]", "F", "P", "S", "=S"],
     "aroring": ["c", "c", "n", "o", "1", "2", "-1", "-2", ":1", "=1", "(", ")", "[nH]", "s"],
+    "arocaps": ["c", "n", "o", "[nH]", "s", "1", "(", ")", "C", "=O", "N", "[n+]"],
     "hcaps": ["[NH4]", "[CH5]", "[OH3]", "[BH4]", "C", "N", "=O", ".", "(", ")", "[NH4+]", "[CH3]", "[SiH3]", "[OH2]"],
     "bad": ["C", "C", "1", "=1", "#1", "(", ")", "%", "[", "]", "=", ".", ":", "*", "c", "X", "[Xx]", "%1"],
     "bad2": ["C", "Cl", "[Fe]", "1", ":1", "c", "(", ")", ":C", "=1", ":%12", "%12"],
@@ -349,6 +350,11 @@ def check_C06(tier):
     for tname in ("default", "charged"):
         enc_gen_replay(rep, "hcaps_%s" % tname, ENC["hcaps"], tabs[tname], n - 2, strict=True, quick=quick, own=own,
                        invariants=["StrictExact", "TwoOutcomes", "OutInGrammar", "SameAtoms", "SameBonds"])
+    # aromatic atoms against tight capacities (the strict check sees the kekulised molecule)
+    arotabs = {"one": {"C": 1, "N": 1, "O": 1, "S": 1, "N+1": 2, "?": 1}, "two": {"C": 3, "N": 2, "O": 1, "S": 2, "N+1": 3, "?": 2}}
+    for tname, tab in arotabs.items():
+        enc_gen_replay(rep, "arocaps_%s" % tname, ENC["arocaps"], tab, n - 1, strict=True, quick=quick, own=own,
+                       invariants=["StrictExact", "TwoOutcomes"])
     for tname, tab in tabs.items():
         if quick and tname == "octet":
             continue
@@ -408,8 +414,8 @@ def check_C06(tier):
     finally:
         sf.set_semantic_constraints("default")
     # realistic molecules near capacity limits under the presets
-    corpus_trace(rep, "presets", quick, own, ["default", "octet_rule", "hypervalent"], per_file=(15 if quick else 250),
-                 variants=1)
+    corpus_trace(rep, "presets", quick, own, ["default", "octet_rule", "hypervalent", arotabs["two"]],
+                 per_file=(15 if quick else 250), variants=1)
     rep.exhaustive = True
     return rep.finish()
 
